@@ -338,6 +338,9 @@ def check(ctx: Ctx) -> None:
     check_initial_flow(ctx)
     check_tables(ctx)
     check_key(ctx)
+    # R14.5 (= R2.11): a finished resume handler mixed into a superseding cause keeps its record (it is re-purposed, not purged)
+    from . import _extra
+    _extra.check_repurpose_all(ctx, 'R14.5')
 
 
 SPEC = PropSpec(
